@@ -10,10 +10,14 @@ EXTENDS PMMRStore, TLC, Json, SequencesExt, Randomization
 
 CONSTANTS FinishUnits,   \* Finish (emit the behaviour) is allowed once this many units were begun
           MaxLen,        \* no new unit / compaction / reopen once the history is this long
+          SampleK,       \* emit one finished behaviour in SampleK (1 = all)
+          FinishLen,     \* ... and the history has at least this many steps
           RemoveFanout   \* 0: any live leaf may be removed; k > 0: k random candidates (simulation weight)
 
-VARIABLES hist, fin
-mcvars == <<vars, hist, fin>>
+VARIABLES hist, fin,
+          tag    \* per finished unit: how it ended (kept in the VIEW so that discarded units and no-op
+                 \* rewinds, which are invisible in the reference, still get their own behaviours)
+mcvars == <<vars, hist, fin, tag>>
 
 Sorted(S) == SetToSortSeq(S, LAMBDA x, y : x < y)
 
@@ -25,37 +29,43 @@ ASSUME \A n \in 0..MaxLeaves : PrintT(<<"SHAPE", ToJson(Shape(n))>>)
 Step(k, a) == /\ hist' = Append(hist, [k |-> k, a |-> a, lv |-> Cur'.leaves,
                                        rm |-> Sorted({i - 1 : i \in Cur'.removed})])
               /\ UNCHANGED fin
+              /\ tag' = IF k = "Commit" THEN Append(tag, <<"C", IF cnt.rew = 1 THEN wb ELSE 0>>)
+                        ELSE IF k = "Discard" THEN Append(tag, <<"D", IF cnt.rew = 1 THEN wb ELSE 0, NL(work), Cardinality(work.removed)>>)
+                        ELSE tag
 
 RewindSteps(b) ==
   IF b = Len(bnd) THEN <<[size |-> BSize(b), rm |-> <<>>]>>
   ELSE [j \in 1..(Len(bnd) - b) |-> LET k == Len(bnd) - j IN [size |-> BSize(k), rm |-> Sorted(StepRm(k))]]
 
 Short == Len(hist) < MaxLen
+\* simulation weights: with RemoveFanout > 0 (simulation configs) some actions are offered only now and then
+Sim == RemoveFanout > 0
+Coin(n) == ~Sim \/ RandomElement(1..n) = 1
 
-MCInit == Init /\ hist = <<>> /\ fin = FALSE
+MCInit == Init /\ hist = <<>> /\ fin = FALSE /\ tag = <<>>
 
 RemoveCand == IF RemoveFanout = 0 \/ Cardinality(Live(work)) <= RemoveFanout THEN Live(work)
               ELSE RandomSubset(RemoveFanout, Live(work))
 
-Finish == /\ phase = "idle" /\ cnt.units >= FinishUnits
-          /\ fin' = TRUE /\ UNCHANGED <<vars, hist>>
+Finish == /\ phase = "idle" /\ cnt.units >= FinishUnits /\ Len(hist) >= FinishLen /\ (Coin(3) \/ ~Short \/ cnt.units >= MaxUnits)
+          /\ fin' = TRUE /\ UNCHANGED <<vars, hist, tag>>
 
 MCNext ==
   /\ ~fin
   /\ \/ Short /\ Begin /\ Step("Begin", [unit |-> cnt'.units])
-     \/ \E b \in 1..Len(bnd) : Rewind(b) /\ Step("Rewind", [b |-> b, size |-> BSize(b), rm |-> Sorted(RewindRm(b)),
+     \/ \E b \in 1..Len(bnd) : Coin(3) /\ Rewind(b) /\ Step("Rewind", [b |-> b, size |-> BSize(b), rm |-> Sorted(RewindRm(b)),
                                                          steps |-> RewindSteps(b)])
      \/ AppendLeaf(NewData) /\ Step("Append", [d |-> NewData])
      \/ \E i \in RemoveCand : Remove(i) /\ Step("Remove", [i |-> i - 1, pos |-> LeafPos0(i)])
-     \/ Commit /\ Step("Commit", [nb |-> Len(bnd')])
-     \/ Discard /\ Step("Discard", [nb |-> Len(bnd)])
-     \/ \E b \in 1..Len(bnd) : Short /\ Compact(b) /\ Step("Compact", [b |-> b, size |-> BSize(b), rm |-> Sorted(CompactRm(b))])
-     \/ Short /\ Reopen /\ Step("Reopen", [n |-> cnt.units])
+     \/ (Coin(5) \/ cnt.apps >= MaxAppends \/ cnt.rems >= MaxRemoves) /\ Commit /\ Step("Commit", [nb |-> Len(bnd')])
+     \/ Coin(20) /\ Discard /\ Step("Discard", [nb |-> Len(bnd)])
+     \/ \E b \in 1..Len(bnd) : Short /\ Coin(5) /\ Compact(b) /\ Step("Compact", [b |-> b, size |-> BSize(b), rm |-> Sorted(CompactRm(b))])
+     \/ Short /\ Coin(4) /\ Reopen /\ Step("Reopen", [n |-> cnt.units])
      \/ Finish
 
 MCSpec == MCInit /\ [][MCNext]_mcvars
 
-View == <<vars, fin>>
+View == <<vars, fin, tag>>
 
-Emit == fin => PrintT(<<"BEH", ToJson(hist)>>)
+Emit == (fin /\ (SampleK = 1 \/ RandomElement(1..SampleK) = 1)) => PrintT(<<"BEH", ToJson(hist)>>)
 ===========================================================================
